@@ -204,3 +204,116 @@ class Unpack255UShort(Contract):
     ensures = [prop("value-and-rest-per-spec", lambda a, old, r: And(
         eq(r[0], spec_255_decode(_items(a.data))[0]),
         *[Implies(eq(spec_255_decode(_items(a.data))[1], k), r[1] == a.data[k:]) for k in (1, 2, 3)]))]
+
+
+# -- WOFF2 table directory entry (C04) ------------------------------------------------------------
+
+class _Base128Stub:
+    """packBase128 / unpackBase128 through their contracts (PackBase128, UnpackBase128, proved
+    above for every value): pack(n) is some byte string of base128Size(n) bytes that unpack maps
+    back to n, consuming exactly those bytes.  The bytes themselves are opaque here."""
+
+    def __init__(self, S):
+        self.S, self.packed = S, []
+
+    def pack(self, n):
+        from pyvc.sym import SymNum
+        if not isinstance(n, SymNum):
+            n = self.S.pin(n)
+        size = 1 if bool(n < 2 ** 7) else 2 if bool(n < 2 ** 14) else 3 if bool(n < 2 ** 21) else 4 if bool(n < 2 ** 28) else 5
+        k = len(self.packed)
+        its = [self.S.int("b128_%d_%d" % (k, i), 0, 255) for i in range(size)]
+        self.packed.append((n, its))
+        return SymBytes(its)
+
+    def unpack(self, data):
+        its = _items(data)
+        for n, p in self.packed:
+            if len(its) >= len(p) and all(x is y for x, y in zip(its, p)):
+                return n, data[len(p):]
+        from pyvc.sym import Unsupported
+        raise Unsupported("unpackBase128 stub: the data does not start with a packed value of this run")
+
+
+def _dir_rebind():
+    from pyvc.models import sstruct_shadow
+    return dict(REBIND, sstruct=sstruct_shadow(), int=std("int")["int"])
+
+
+# W3C WOFF2 section 4: known-table index of some tags (63 = arbitrary tag follows)
+KNOWN_INDEX = {"cmap": 0, "head": 1, "hhea": 2, "hmtx": 3, "maxp": 4, "name": 5, "OS/2": 6, "post": 7, "cvt ": 8,
+               "fpgm": 9, "glyf": 10, "loca": 11, "prep": 12, "CFF ": 13, "GSUB": 28, "Zapf": 57, "Sill": 62}
+
+
+@contract
+class WOFF2DirectoryEntryRoundTrip(Contract):
+    """WOFF2DirectoryEntry.toString against the WOFF2 table-directory layout, and
+    fromString(toString(e)) == e: flags byte (known-tag index or 63 + 4-byte tag; transform
+    version in bits 6-7), origLength as UIntBase128, transformLength present exactly when the
+    table is transformed (glyf/loca: version != 3; others: version != 0) - for every transform
+    version and all lengths below 2**32."""
+    module = "fontTools.ttLib.woff2"
+    qualname = "WOFF2DirectoryEntry.fromString"
+    props = ("C04", "C15")
+    rebind = staticmethod(_dir_rebind)
+    variants = ("head", "glyf", "loca", "hmtx", "GSUB", "Zapf", "Sill", "ZZZZ", "a b ")
+    level = "PF"
+    assumptions = ("packBase128 / unpackBase128 are used through their contracts (PackBase128, UnpackBase128)",)
+
+    def args(self, S, variant):
+        self._stub = _Base128Stub(S)
+        self.mod.packBase128, self.mod.unpackBase128 = self._stub.pack, self._stub.unpack
+        e = self.mod.WOFF2DirectoryEntry()
+        e.tag = self.mod.Tag(variant)
+        ver, bits = S.bitword("version", 2)
+        idx = KNOWN_INDEX.get(variant, 63)
+        e.flags = idx + ver * 64
+        e.origLength = S.int("origLength", 0, 2 ** 32 - 1)
+        e.length = S.int("length", 0, 2 ** 32 - 1)
+        return dict(self=e, _ver=ver, _idx=idx, _tag=variant)
+
+    def requires(self, a):
+        transformed = Not(eq(a._ver, 3)) if a._tag in ("glyf", "loca") else Not(eq(a._ver, 0))
+        # a transformed loca must have transformLength 0 (the reader refuses anything else)
+        return Implies(And(transformed, a._tag == "loca"), eq(a.self.length, 0))
+
+    def call(self, f, a):
+        cls = type(a.self)
+        data = cls.toString(a.self)
+        back = cls()
+        rest = f(back, data)
+        # where the first UIntBase128 ends on this path (UIntBase128 is prefix-free: a split under
+        # which both fields are well formed and carry the right values is THE decoding)
+        return data, back, rest, list(self._stub.packed)
+
+    @staticmethod
+    def _layout(a, r):
+        bs = _items(r[0])
+        transformed = Not(eq(a._ver, 3)) if a._tag in ("glyf", "loca") else Not(eq(a._ver, 0))
+        cs = [eq(bs[0], a._idx + a._ver * 64)]
+        pos = 1
+        if a._idx == 63:
+            cs += [eq(bs[1 + i], ord(ch)) for i, ch in enumerate(a._tag)]
+            pos = 5
+        rest = bs[pos:]
+        packed = r[3]
+        # origLength first, then - exactly when transformed - transformLength; nothing else
+        if not packed or packed[0][0] is not a.self.origLength or any(x is not y for x, y in zip(rest, packed[0][1])):
+            return False
+        tail = rest[len(packed[0][1]):]
+        if len(packed) == 1:
+            cs.append(And(Not(transformed), len(tail) == 0))
+        elif len(packed) == 2:
+            cs.append(And(transformed, packed[1][0] is a.self.length, len(tail) == len(packed[1][1]),
+                          all(x is y for x, y in zip(tail, packed[1][1]))))
+        else:
+            return False
+        return And(*cs)
+
+    ensures = [
+        prop("entry-layout-per-WOFF2", lambda a, old, r: WOFF2DirectoryEntryRoundTrip._layout(a, r)),
+        prop("fromString-of-toString-is-the-entry", lambda a, old, r: And(
+            str(r[1].tag) == a._tag, eq(r[1].flags, a.self.flags), eq(r[1].origLength, a.self.origLength),
+            eq(r[1].length, Ite(Not(eq(a._ver, 3)) if a._tag in ("glyf", "loca") else Not(eq(a._ver, 0)), a.self.length, a.self.origLength)),
+            len(r[2]) == 0)),
+    ]
